@@ -91,3 +91,35 @@ def valid(decls, formula, timeout_ms=5000):
 
 def equivalent(decls, a, b, timeout_ms=5000):
     return valid(decls, "(= %s %s)" % (a, b), timeout_ms)
+
+
+def any_equivalent_pair(decls, terms, extra=(), timeout_ms=300, max_n=45):
+    """True iff two of `terms` (or one of `extra` and one of `terms`) are equivalent; one z3 context for all."""
+    terms = list(terms)
+    extra = list(extra)
+    if len(set(terms)) < len(terms) or any(e in terms for e in extra):
+        return True
+    if len(terms) + len(extra) > max_n:
+        return False
+    try:
+        ctx = z3.Context()
+        fs = z3.parse_smt2_string("\n".join(list(decls) + ["(assert %s)" % t for t in terms + extra]), ctx=ctx)
+    except z3.Z3Exception:
+        return False
+    fs = list(fs)
+    n = len(terms)
+    simp = [z3.simplify(f).sexpr() for f in fs]
+    if len(set(simp[:n])) < n or any(x in simp[:n] for x in simp[n:]):
+        return True
+    s = z3.Solver(ctx=ctx)
+    s.set("timeout", timeout_ms)
+    for i in range(len(fs)):
+        for j in range(min(i, n)):
+            if i < n or True:
+                s.push()
+                s.add(fs[i] != fs[j])
+                r = s.check()
+                s.pop()
+                if r == z3.unsat:
+                    return True
+    return False
